@@ -323,6 +323,11 @@ def replay(c, hb):
             for f in (srcfile, args.get("docfile")):
                 if f and os.path.exists(f):
                     os.remove(f)
+        elif stream == "c12-bounds":
+            m = re.search(r"case=c(\d+)", rp.get("oracle", ""))
+            idx = int(m.group(1)) // 3 if m else 0
+            args = {"seed": args.get("seed", rp.get("seed", 1)), "from": idx, "n": 1, "docs": args.get("docs", 12)}
+            rows, x = run_stream(c, hb, "c12-bounds", **args)
         elif stream == "c12-ir":
             m = re.match(r"\S+ i(\d+) ", rp.get("request", ""))
             args["from"], args["n"] = (int(m.group(1)) if m else 0), 1
@@ -371,6 +376,9 @@ def main():
     # run under a watchdog; a relapse answers `hang`, disagrees with the (terminating) model and matches no finding
     run_stream(c, hb, "c12-hang", ms=3000 if quick else 8000)
     run_stream(c, hb, "c12-labpinned")
+    # boundary terms (zero / empty / equal bounds, enumerations holding 0, falsy defaults) x 3 formats: values AT the
+    # bounds through real generated code, single-fault documents one step BEYOND them against the emitted schema
+    run_stream(c, hb, "c12-bounds", n=8 if quick else 120, docs=12 if quick else 20, seed=c.seed)
     run_stream(c, hb, "c12-ir", n=400 if quick else 6000, seed=c.seed, tier=c.tier, malformed=1)
     n, docs = (16, 24) if quick else (300, 40)
     run_stream(c, hb, "c12-lab", n=n, docs=docs, seed=c.seed, tier=c.tier)
